@@ -138,6 +138,77 @@ def strategies_check(ctx, c, outs):
     return "; ".join(res[:3]) if res else None
 
 
+def rotation_strategies_check(ctx, c, outs):
+    """`Rotation` objects with mixed improper flags: outer with vectors / rotations / quaternions and element-wise products are the
+    same under both backends, eager and lazy (every chunk size), for `other` given as float64 / float32 / integer arrays, whole
+    or element by element.  `other` holds small integers (exactly representable in every dtype); the rotations are signed
+    permutations or in general position; every strategy must agree with the reference (numpy-quaternion backend, eager,
+    float64) to 1e-12 (5e-6 through float32)."""
+    from orix.quaternion import Rotation, Quaternion
+    from orix.vector import Vector3d
+    sa, sb = tuple(c["sa"]), tuple(c["sb"])
+    A = np.array(c["A"], float).reshape(sa + (4,))
+    fa = np.array(c["fa"], bool).reshape(sa)
+    res, ref = [], {}
+    with warnings.catch_warnings():
+        warnings.simplefilter("ignore")
+        for builtin in (False, True):
+            for dt in ("float64", "int64", "float32"):
+                tol = 5e-6 if dt == "float32" else 1e-12
+                with backend(builtin):
+                    R = Rotation(A.copy())
+                    R.improper = fa.copy()
+                    out = {}
+                    if c["other"] == "v":
+                        vb = Vector3d(np.array(c["B"]).reshape(sb + (3,)).astype(dt))
+                        out["outer"] = R.outer(vb).data
+                        for ch in c["chunks"]:
+                            out[f"outer_lazy{ch}"] = R.outer(vb, lazy=True, chunk_size=ch, progressbar=False).data
+                        out["outer_elementwise"] = np.stack([(R[i] * vb[j]).data.reshape(3) for i in np.ndindex(*sa)
+                                                             for j in np.ndindex(*sb)]).reshape(sa + sb + (3,))
+                        if sa == sb:
+                            out["mul"] = (R * vb).data
+                    else:
+                        B = np.array(c["B"]).reshape(sb + (4,)).astype(dt)
+                        ob = Rotation(B) if c["other"] == "r" else Quaternion(B)
+                        if c["other"] == "r":
+                            ob.improper = np.array(c["fb"], bool).reshape(sb)
+                        o = R.outer(ob)
+                        out["outer"] = o.data
+                        if c["other"] == "r":
+                            out["outer_improper"] = np.asarray(o.improper, float)
+                        for ch in c["chunks"]:
+                            ol = R.outer(ob, lazy=True, chunk_size=ch, progressbar=False)
+                            out[f"outer_lazy{ch}"] = ol.data
+                            if c["other"] == "r":
+                                out[f"outer_improper_lazy{ch}"] = np.asarray(ol.improper, float)
+                        if c["other"] == "r":
+                            el = [(R[i] * ob[j]) for i in np.ndindex(*sa) for j in np.ndindex(*sb)]
+                            out["outer_elementwise"] = np.stack([e.data.reshape(4) for e in el]).reshape(sa + sb + (4,))
+                            out["outer_improper_elementwise"] = np.array([float(np.asarray(e.improper).reshape(-1)[0]) for e in el]
+                                                                         ).reshape(sa + sb)
+                for name, val in out.items():
+                    key = name.replace("_elementwise", "")
+                    for ch in c["chunks"]:
+                        key = key.replace(f"_lazy{ch}", "")
+                    if key not in ref:
+                        ref[key] = (val, name, builtin, dt)
+                        continue
+                    r = ref[key][0]
+                    if val.shape != r.shape:
+                        res.append(f"Rotation {name} (builtin={builtin}, other as {dt}) has shape {val.shape} but {ref[key][1]} has {r.shape}")
+                        continue
+                    if key == "outer" and c["other"] != "v":          # rotations up to sign
+                        d = float(np.minimum(np.abs(val - r).max(axis=-1), np.abs(val + r).max(axis=-1)).max()) if val.size else 0.0
+                    else:
+                        d = float(np.abs(val - r).max()) / max(1.0, float(np.abs(r).max())) if val.size else 0.0
+                    if d > tol:
+                        res.append(f"Rotation.outer({c['other']}) {name} (builtin={builtin}, other as {dt}) differs from {ref[key][1]} "
+                                   f"(builtin={ref[key][2]}, {ref[key][3]}) by {d:.3e}: {np.asarray(val).reshape(-1)[:6].tolist()} vs "
+                                   f"{np.asarray(r).reshape(-1)[:6].tolist()} (improper flags {fa.reshape(-1).tolist()})")
+    return "; ".join(res[:2]) if res else None
+
+
 def symmetry_check(ctx, c, outs):
     """Orientation outer angles and distance matrices: lazy (every chunk size) = eager, values and layout"""
     from orix.quaternion import Orientation
@@ -156,12 +227,19 @@ def symmetry_check(ctx, c, outs):
             if np.abs(lz - eager).max() > 2e-6:
                 return (f"angle_with_outer lazy(chunk={ch}) differs from eager by {np.abs(lz - eager).max():.3e} "
                         f"({G1.name}, {G2.name}; shapes {s1}, {s2})")
+            lzd = O1.angle_with_outer(O2, lazy=True, chunk_size=ch, progressbar=False, degrees=True)
+            if lzd.shape != eager.shape or np.abs(lzd - np.rad2deg(eager)).max() > 2e-4:
+                return (f"angle_with_outer(degrees=True) lazy(chunk={ch}) = {np.asarray(lzd).tolist()} but eager (radians) "
+                        f"{eager.tolist()} ({G1.name}, {G2.name}; shapes {s1}, {s2})")
         if len(s1) == 1:
             e = O1.get_distance_matrix()
             for ch in c["chunks"][:3]:
                 lz = O1.get_distance_matrix(lazy=True, chunk_size=ch, progressbar=False)
                 if lz.shape != e.shape or np.abs(lz - e).max() > 2e-6:
                     return f"get_distance_matrix lazy(chunk={ch}) differs from eager ({G1.name})"
+                lzd = O1.get_distance_matrix(lazy=True, chunk_size=ch, progressbar=False, degrees=True)
+                if lzd.shape != e.shape or np.abs(lzd - np.rad2deg(e)).max() > 2e-4:
+                    return f"get_distance_matrix(degrees=True) lazy(chunk={ch}) is not the eager matrix in degrees ({G1.name})"
         # whole vs element by element
         for i in np.ndindex(*s1):
             for j in np.ndindex(*s2):
@@ -176,6 +254,7 @@ SITES = {
     "outer_exact": sites.Site("outer_exact", "corr", outer_check, outer_lines),
     "strategies": sites.Site("strategies", "prop", strategies_check),
     "symmetry_lazy": sites.Site("symmetry_lazy", "prop", symmetry_check),
+    "rotation_strategies": sites.Site("rotation_strategies", "prop", rotation_strategies_check),
 }
 PREDICATES = {"c18_nonunit_quaternion_vector": lambda case: bool(case.get("nonunit_lazy")) and case.get("op") == "qv"}
 SHAPES = [(1,), (2,), (3,), (1, 2), (2, 1), (2, 2), (1, 1, 2), (5,)]
@@ -221,6 +300,23 @@ def generate(ctx):
              "B": [GQ.vec(rng) for _ in range(n)], "chunks": [1], "nonunit": True}
         ctx.count("strategies/qv/nonunit_backends", ("stb", r, tuple(c["A"][0])))
         yield "strategies", c
+    # Rotation objects with mixed improper flags: exact inputs (signed-permutation rotations scaled to unit, integer vectors)
+    perm = [[1, 0, 0, 0], [0, 1, 0, 0], [0, 0, 1, 0], [0, 0, 0, 1], [-1, 0, 0, 0], [0, 0, -1, 0]]
+    for r in range(6 if ctx.tier == "quick" else 60):
+        sa, sb = SHAPES[rng.integers(len(SHAPES))], SHAPES[rng.integers(len(SHAPES))]
+        other = ["v", "r", "q"][r % 3]
+        if r % 6 == 0:
+            sb = sa
+        na, nb = int(np.prod(sa)), int(np.prod(sb))
+        # every second case: rotations in general position (results are not integers although `other` holds integers)
+        c = {"other": other, "sa": list(sa), "sb": list(sb),
+             "A": [perm[rng.integers(len(perm))] if (r // 3) % 2 == 0 else GQ.unit_quat(rng)[0] for _ in range(na)],
+             "fa": [bool((j + r) % 2) for j in range(na)] if na > 1 else [True],
+             "B": ([[int(x) for x in rng.integers(-5, 6, size=3)] for _ in range(nb)] if other == "v"
+                   else [perm[rng.integers(len(perm))] for _ in range(nb)]),
+             "fb": [bool(rng.integers(2)) for _ in range(nb)], "chunks": [int(x) for x in rng.choice(CHUNKS, 2, replace=False)]}
+        ctx.count(f"rotation_strategies/{other}/ndim{len(sa)}x{len(sb)}", ("rs", r, other, tuple(c["A"][0])), nontrivial=True)
+        yield "rotation_strategies", c
     m = 12 if ctx.tier == "quick" else 150
     gs = groups()
     small = [i for i, g in enumerate(gs) if g.size <= 12]
